@@ -45,7 +45,11 @@ Section Step.
          (negb (is_available r) &&
           match newer with
           | nx :: _ => (negb known || forallb (fun m => match sl m with Some _ => true | None => false end) (slice_refs nx)) &&
-                       is_nil (inter_keys (full_objects sl nx) (os_ctrlof (ds_set r)))
+                       (* a controllerOf that was never reported (nil) is "unknown", not "controls nothing" *)
+                       match active_objects r with
+                       | Some act => is_nil (inter_keys (full_objects sl nx) act)
+                       | None => false
+                       end
           | [] => false
           end))
     | _, _ => false
@@ -200,8 +204,7 @@ Proof.
   - assert (existsb is_available (nx :: l3) = true) by (apply existsb_exists; exists s; auto). now rewrite H.
   - injection E as <- <-. rewrite Hav. cbn [negb andb orb]. apply orb_true_iff. right. apply andb_true_iff. split.
     { apply forallb_forall. intros m Hm. specialize (Hkn m Hm). destruct (slices m); [reflexivity|now elim Hkn]. }
-    unfold active_objects in Hact. rewrite Har in Hact. destruct (is_nil (os_ctrlof (ds_set r)) && negb (ds_ctrlset r)); [discriminate|].
-    injection Hact as <-. now apply inter_keys_nil.
+    rewrite Hact. now apply inter_keys_nil.
 Qed.
 
 Theorem monitor_sound_archive hash fault slices w w' evs r :
